@@ -403,6 +403,9 @@ class ExprMixin:
             return self.list_member(cont, cont.t[0], it)
         if k == KStr:
             return z3.Contains(lift(cont).z, lift(item, KStr).z)
+        if isinstance(k, KRef) and (k.cls + '_contains') in self.reg.ufuncs:
+            f, ks, rk = self.reg.ufuncs[k.cls + '_contains']
+            return f(cont.z, self.coerce_to(st, item, ks[1]).z)
         if isinstance(k, KRef):
             sc = self.schema(k.cls)
             if sc.record and isinstance(item, str):
@@ -447,6 +450,7 @@ class ExprMixin:
             if v.kind == KInt:
                 return self.int_to_str(v.z)
             if v.kind == KName:
+                self.ax_buffer.append(ops._atom(self.name_str(v.z)) == v.z)    # atom is the inverse of name_str
                 return self.name_str(v.z)
         # opaque rendering (only ever used in messages)
         return z3.String(fresh_name('repr'))
@@ -541,6 +545,8 @@ class ExprMixin:
                         f = FuncVal('repo', qual='%s:%s.%s' % (mod.name, c, attr), node=fn, module=mod,
                                     selfv=base, cls=c)
                         return self.call_value(st, fr, f, [], {})
+                    if frontend.is_static(fn):
+                        return [(st, FuncVal('repo', qual='%s:%s.%s' % (mod.name, c, attr), node=fn, module=mod, cls=c))]
                     f = FuncVal('repo', qual='%s:%s.%s' % (mod.name, c, attr), node=fn, module=mod,
                                 selfv=base, cls=c)
                     f.py = cname      # static receiver class, for dynamic dispatch
@@ -684,6 +690,9 @@ class ExprMixin:
         if isinstance(base, str) and isinstance(idx, int):
             return [(st, base[idx])]
         k = ops.kind_of(base)
+        if isinstance(k, KOpt) and fr.spec:
+            base = SVal(k.inner, base.t[1:])      # total in specs (guarded by `is not None` there)
+            k = k.inner
         if isinstance(k, KTuple) or isinstance(k, KVec):
             items = ops.tuple_items(base)
             if isinstance(idx, int):
